@@ -204,7 +204,10 @@ def gen_form(rnd, boundary, max_parts=6, max_len=700, delim_text=False, extras=F
         spans.append((hs, len(body), kind))
         body += b"\r\n\r\n" + content + b"\r\n"
         form.append((kind, content))
-    body += b"--" + boundary + b"--\r\n"
+    body += b"--" + boundary + b"--"
+    if extras and rnd.random() < 0.25:
+        return form, bytes(body) + rnd.choice([b"", b" ", b" \t"]), spans, names, len(pre)      # nothing after the close-delimiter (but padding)
+    body += b"\r\n"
     if extras and rnd.random() < 0.4:
         body += rnd.choice([b"epilogue", b"\r\n--" + boundary + b"\r\nnot a part", b"\x00\xff", b"--" + boundary + b"--\r\n"])
     return form, bytes(body), spans, names, len(pre)
@@ -317,7 +320,7 @@ def long_sessions(ctx, wd, n, rnd, pid, hold_only=False):
         total_ev += sum(len(t["events"]) for t in traces)
         inv = ["THold"] if hold_only else ["TPrefixOK", "TExact", "THold"]
         acc, rej = tracecheck.validate(wd, "TraceMultipart", traces, invariants=inv,
-                                       constants=dict(Bnd=Session(B).bnd(), Forms=frozenset(), Preambles=frozenset(), MaxChunk=0, Limits=frozenset(), HoldFix=True, OpenFix=OPENFIX, PreFix=PREFIX))
+                                       constants=dict(Bnd=Session(B).bnd(), Forms=frozenset(), Preambles=frozenset(), Epilogues=frozenset(), MaxChunk=0, Limits=frozenset(), HoldFix=True, OpenFix=OPENFIX, PreFix=PREFIX))
         ctx.traces_validated += acc
         for tid, name, st in tracecheck.validate.last_invariant_failures:
             s, form, spans, mode, whole, mc, body = recs[tid]
@@ -407,7 +410,7 @@ def pytest_sessions(ctx, wd, repo, verif):
         if any(b in (13, 10) or b in BLANKS for b in B):
             continue
         acc, rej = tracecheck.validate(wd, "TraceMultipart", traces, invariants=[],
-                                       constants=dict(Bnd=Session(B).bnd(), Forms=frozenset(), Preambles=frozenset(), MaxChunk=0, Limits=frozenset(), HoldFix=True, OpenFix=OPENFIX, PreFix=PREFIX))
+                                       constants=dict(Bnd=Session(B).bnd(), Forms=frozenset(), Preambles=frozenset(), Epilogues=frozenset(), MaxChunk=0, Limits=frozenset(), HoldFix=True, OpenFix=OPENFIX, PreFix=PREFIX))
         ctx.traces_validated += acc
         n += len(traces)
         ctx.count(len(traces))
